@@ -7,16 +7,9 @@ open QV
 
 variable {scope : List String} {ρ : Env} {σ0 : FState} {wo : Bool}
 
-theorem Res.next {Q : FState → Nat → Prop} {W : Nat → Prop} {K : BExp → Prop} {Mk : Nat → Prop}
-    {s s1 s2 : CState} {a : Nat} (h : Res scope s s1 a) (sem : Sem2 scope σ0 wo Q W K Mk s1 s2) :
-    Res scope s s2 a := by
-  rcases h with ⟨n, hk, hq⟩ | ⟨h1, h2⟩
-  · exact Or.inl ⟨n, hk, sem.qkeep n a hk hq⟩
-  · exact Or.inr ⟨h1, sem.akeep a h2⟩
-
 theorem Res.weaken {Q : FState → Nat → Prop} {W : Nat → Prop} {K : BExp → Prop} {Mk : Nat → Prop}
-    {s s1 s2 : CState} {a : Nat} (h : Res scope s1 s2 a) (sem : Sem2 scope σ0 wo Q W K Mk s s1) :
-    Res scope s s2 a := by
+    {s s1 s2 : CState} {a : Nat} (h : Res scope wo s1 s2 a) (sem : Sem2 scope σ0 wo Q W K Mk s s1) :
+    Res scope wo s s2 a := by
   rcases h with h | ⟨h1, h2⟩
   · exact Or.inl h
   · exact Or.inr ⟨sem.avail a h1, h2⟩
@@ -86,11 +79,12 @@ theorem finish_sem2 {Q : FState → Nat → Prop} {es : List Nat} {dest : Option
               expqSet e d
               pure d
             else pure d : M Nat) s = .ok (a, s'))
-    (hp : Pre2 scope ρ σ0 s) (hd : d < s.qc.numQubits) :
+    (hp : Pre2 scope ρ σ0 s) (hd : d < s.qc.numQubits)
+    (htgt : wo = false → ∀ m ∈ es, m ∈ s.qc.anc → Tgt s m) :
     a = d ∧ Pre2 scope ρ σ0 s' ∧ Sem2 scope σ0 wo Q NoQ (· = e) (fun m => m ∈ es ∧ m ∈ s.qc.anc) s s' ∧
       cur σ0 s' = cur σ0 s ∧ (∀ m ∈ es, m ∈ s.qc.anc → m ∈ s'.qc.marked) ∧ s'.qc.anc = s.qc.anc := by
   obtain ⟨u1, s1, hm, h1⟩ := run_bind_ok.mp h
-  obtain ⟨hp1, sem1, hc1, hmk1, ha1, hn1⟩ := markAll_sem2 (wo := wo) (Q := Q) hm hp
+  obtain ⟨hp1, sem1, hc1, hmk1, ha1, hn1⟩ := markAll_sem2 (wo := wo) (Q := Q) hm hp htgt
   split at h1
   · obtain ⟨u2, s2, hset, h2⟩ := run_bind_ok.mp h1
     obtain ⟨e1, e2⟩ := run_pure_ok.mp h2
@@ -143,9 +137,10 @@ theorem exprSem2_and {args : List BExp} (ih : ArgsSem2 scope ρ σ0 wo args) :
       Pre2 scope ρ σ0 s' ∧
       Sem2 scope σ0 wo (CtlQ scope ρ s') (fun q => dest = some q) (· ∈ compKeys (BExp.and args))
         (fun m => Avail s1 m ∧ ¬ Avail s' m ∧ (dest = none → m ≠ a)) s1 s' ∧
-      (dest = none → Res scope s1 s' a ∧ ¬ Avail s' a ∧ cur σ0 s' a = (BExp.and args).eval ρ ∧
+      (dest = none → Res scope wo s1 s' a ∧ ¬ Avail s' a ∧ cur σ0 s' a = (BExp.and args).eval ρ ∧
         (isLeaf (BExp.and args) = false → a ∈ s'.qc.anc)) ∧
-      (∀ d, dest = some d → a = d ∧ cur σ0 s' d = Bool.xor (cur σ0 s1 d) ((BExp.and args).eval ρ)) := by
+      (∀ d, dest = some d → a = d ∧ cur σ0 s' d = Bool.xor (cur σ0 s1 d) ((BExp.and args).eval ρ) ∧
+        (wo = false → Tgt s' d)) := by
     intro d s3 hdest h3
     obtain ⟨hp3, semd, hcd, hdn, hpriv3, hdcase⟩ := dest_sem2 (wo := wo) (Q := CtlQ scope ρ s') hp2 hd hd2 hb hdest
     have hcdn : ¬ (erets.contains d = true) := by simpa using hdn
@@ -159,13 +154,16 @@ theorem exprSem2_and {args : List BExp} (ih : ArgsSem2 scope ρ σ0 wo args) :
       have am := mcx_run hmcx
       obtain ⟨ead, hp', semf, hcf, hmkf, hancf⟩ := finish_sem2 (wo := wo) (Q := CtlQ scope ρ s') k1 hpt1
         (by rw [am.nq]; exact notAvail_lt hpriv3.1)
+        (fun hwo m hm ha => (((hb m (mem_sortDedup.mp hm)).1.next semd).tgt_of_anc hp3
+          (by rw [← am.anc]; exact ha) hwo).appended am)
       subst ead
-      obtain ⟨_, semg⟩ := mcx_sem2 (scope := scope) (σ0 := σ0) (wo := wo) (Q := CtlQ scope ρ s') hmcx hpriv3.1
+      obtain ⟨_, semg, tgg⟩ := mcx_sem2 (scope := scope) (σ0 := σ0) (wo := wo) (Q := CtlQ scope ρ s') hmcx hpriv3.1
         (fun _ c hc => ctl_of_res hp2 (hb c (mem_sortDedup.mp hc)).1 (by rw [hcd])
           (fun n q hk hq' => semf.qkeep n q hk (by rw [am.qmap]; exact semd.qkeep n q hk hq'))
           (fun ha => hmkf c hc (by rw [am.anc]; exact semd.akeep c ha)))
       have tail := (semd.trans' semg).trans' semf
       have tot := (sem1.monoQ (CtlQ.of_sem tail)).trans' tail
+      have tgd' : Tgt s' a := tgg.of_sem semf
       have hval : cur σ0 s' a = Bool.xor (cur σ0 s2 a) (evalAnd ρ args) := by
         rw [hcf, am.cur_eq rfl σ0, all_sortDedup, hcd, all_of_map hvals]
       have hnava' : ¬ Avail s' a := fun h' => hpriv3.1 ((semg.trans' semf).avail a h')
@@ -194,13 +192,13 @@ theorem exprSem2_and {args : List BExp} (ih : ArgsSem2 scope ρ σ0 wo args) :
           · exact h'.elim
           · exact ⟨(hmk m h').1, (hmk m h').2.1, fun hn => by cases hn⟩
         · cases hd'
-          refine ⟨rfl, ?_⟩
+          refine ⟨rfl, ?_, fun _ => tgd'⟩
           rw [hval, sem1.frame a (fun h' => h') (Or.inl (hd a rfl).1)]
           simp [BExp.eval]
       · subst hnone
         have hav1 : Avail s1 a := sem1.avail a hava
         have hanc' : a ∈ s'.qc.anc := (semg.trans' semf).akeep a hanca
-        refine ⟨hp', tot.mono ?_ ?_ ?_, fun _ => ⟨Or.inr ⟨hav1, hanc'⟩, hnava', ?_, fun _ => hanc'⟩,
+        refine ⟨hp', tot.mono ?_ ?_ ?_, fun _ => ⟨Or.inr ⟨hav1, hanc', fun _ => tgd'⟩, hnava', ?_, fun _ => hanc'⟩,
           fun d' hd' => by cases hd'⟩
         · rintro q hq' (h' | ((h' | h') | h'))
           · exact h'.elim
@@ -243,7 +241,7 @@ theorem xAll_sem2 {Q : FState → Nat → Prop} : ∀ (es : List Nat) {u : Unit}
   | i :: is, u, s, s', h, hes => by
     unfold xAll at h
     obtain ⟨u1, s1, h1, h2⟩ := run_bind_ok.mp h
-    obtain ⟨a1, sem1⟩ := xGate_sem2 (scope := scope) (σ0 := σ0) (wo := wo) (Q := Q) h1 (hes i List.mem_cons_self)
+    obtain ⟨a1, sem1, _⟩ := xGate_sem2 (scope := scope) (σ0 := σ0) (wo := wo) (Q := Q) h1 (hes i List.mem_cons_self)
     obtain ⟨sem2, hq2⟩ := xAll_sem2 (Q := Q) is h2
       (fun c hc h' => hes c (List.mem_cons_of_mem _ hc) (sem1.avail c h'))
     refine ⟨(sem1.trans' sem2).mono ?_ (fun _ h' => h'.elim id id) (fun _ h' => h'.elim id id), hq2.trans a1.qmap⟩
@@ -262,14 +260,15 @@ theorem orFin {es : List Nat} {dest : Option Nat} {e : BExp} {d a : Nat} {s t s'
               expqSet e d
               pure d
             else pure d : M Nat) t = .ok (a, s'))
+    (htgt : wo = false → ∀ m ∈ es, m ∈ t.qc.anc → Tgt t m) (htd : wo = false → es ≠ [] → Tgt t d)
     (hsem : (∀ (f : FState) (c : Nat), c ∈ es →
         (c ∈ s.qc.anc ∨ ∃ n, Known scope n ∧ dictGet? s.qc.qmap n = some c ∧ f c = kval ρ n) →
           CtlQ scope ρ s' f c) →
        Sem2 scope σ0 wo (CtlQ scope ρ s') (· = d) NoK NoQ s t) :
     a = d ∧ Pre2 scope ρ σ0 s' ∧
       Sem2 scope σ0 wo (CtlQ scope ρ s') (· = d) (· = e) (fun m => m ∈ es ∧ m ∈ s.qc.anc) s s' ∧
-      cur σ0 s' d = Bool.xor (cur σ0 s d) (es.any (cur σ0 s)) := by
-  obtain ⟨ead, hp', semf, hcf, hmkf, _⟩ := finish_sem2 (wo := wo) (Q := CtlQ scope ρ s') hrun hpt hdlt
+      cur σ0 s' d = Bool.xor (cur σ0 s d) (es.any (cur σ0 s)) ∧ (wo = false → es ≠ [] → Tgt s' d) := by
+  obtain ⟨ead, hp', semf, hcf, hmkf, _⟩ := finish_sem2 (wo := wo) (Q := CtlQ scope ρ s') hrun hpt hdlt htgt
   have hQ : ∀ (f : FState) (c : Nat), c ∈ es →
       (c ∈ s.qc.anc ∨ ∃ n, Known scope n ∧ dictGet? s.qc.qmap n = some c ∧ f c = kval ρ n) →
         CtlQ scope ρ s' f c := by
@@ -278,7 +277,7 @@ theorem orFin {es : List Nat} {dest : Option Nat} {e : BExp} {d a : Nat} {s t s'
     · exact Or.inl (hmkf c hc (by rw [hanc]; exact h'))
     · exact Or.inr ⟨n, hk, semf.qkeep n c hk (by rw [hqm]; exact hq), hv'⟩
   have semg := hsem hQ
-  refine ⟨ead, hp', (semg.trans' semf).mono ?_ ?_ ?_, by rw [hcf, hv]⟩
+  refine ⟨ead, hp', (semg.trans' semf).mono ?_ ?_ ?_, by rw [hcf, hv], fun hwo hne => (htd hwo hne).of_sem semf⟩
   · rintro q _ (h' | h')
     · exact h'
     · exact h'.elim
@@ -318,10 +317,11 @@ theorem orGates_sem2 {es : List Nat} {dest : Option Nat} {e : BExp} {d a : Nat} 
             else pure d : M Nat) s = .ok (a, s'))
     (hp : Pre2 scope ρ σ0 s) (hd : d ∉ es) (hpd : Priv scope s d) (hes : ∀ c ∈ es, ¬ Avail s c)
     (hctl : wo = false → ∀ c ∈ es, c ∈ s.qc.anc ∨ ((es.Nodup → es.length ≤ 2) ∧
-        ∃ n, Known scope n ∧ dictGet? s.qc.qmap n = some c ∧ cur σ0 s c = kval ρ n)) :
+        ∃ n, Known scope n ∧ dictGet? s.qc.qmap n = some c ∧ cur σ0 s c = kval ρ n))
+    (htgt : wo = false → ∀ m ∈ es, m ∈ s.qc.anc → Tgt s m) :
     a = d ∧ Pre2 scope ρ σ0 s' ∧
       Sem2 scope σ0 wo (CtlQ scope ρ s') (· = d) (· = e) (fun m => m ∈ es ∧ m ∈ s.qc.anc) s s' ∧
-      cur σ0 s' d = Bool.xor (cur σ0 s d) (es.any (cur σ0 s)) := by
+      cur σ0 s' d = Bool.xor (cur σ0 s d) (es.any (cur σ0 s)) ∧ (wo = false → es ≠ [] → Tgt s' d) := by
   -- a gate applied while the argument qubits hold the values they have in `s`
   have hctl' : ∀ (f : FState), (∀ c ∈ es, f c = cur σ0 s c) → wo = false → ∀ c ∈ es,
       (c ∈ s.qc.anc ∨ ∃ n, Known scope n ∧ dictGet? s.qc.qmap n = some c ∧ f c = kval ρ n) := by
@@ -332,14 +332,15 @@ theorem orGates_sem2 {es : List Nat} {dest : Option Nat} {e : BExp} {d a : Nat} 
   have hdlt := notAvail_lt hpd.1
   rcases run_ite_ok.mp h with ⟨hle, h⟩ | ⟨hnle, h⟩
   · obtain ⟨u1, s1, hcx, h1⟩ := run_bind_ok.mp h
-    match es, hd, hes, hctl', hle, hcx, h1 with
-    | [], _, _, _, _, hcx, h1 =>
+    match es, hd, hes, hctl', htgt, hle, hcx, h1 with
+    | [], _, _, _, _, _, hcx, h1 =>
       unfold cxAll at hcx
       obtain ⟨_, rfl⟩ := run_pure_ok.mp hcx
       rcases run_ite_ok.mp h1 with ⟨hc, _⟩ | ⟨_, h1⟩
       · simp at hc
-      · exact orFin hp rfl rfl hdlt (by simp) h1 (fun _ => Sem2.refl _)
-    | [q1], hd, hes, hctl', _, hcx, h1 =>
+      · exact orFin hp rfl rfl hdlt (by simp) h1 (fun _ _ hm => absurd hm List.not_mem_nil)
+          (fun _ hne => absurd rfl hne) (fun _ => Sem2.refl _)
+    | [q1], hd, hes, hctl', htgt, _, hcx, h1 =>
       unfold cxAll at hcx
       obtain ⟨u2, s2, hc1, hc2⟩ := run_bind_ok.mp hcx
       unfold cxAll at hc2
@@ -349,10 +350,13 @@ theorem orGates_sem2 {es : List Nat} {dest : Option Nat} {e : BExp} {d a : Nat} 
       rcases run_ite_ok.mp h1 with ⟨hc, _⟩ | ⟨_, h1⟩
       · simp at hc
       · refine orFin hp1 a1.anc a1.qmap (by rw [a1.nq]; exact hdlt) (by rw [a1.cur_eq rfl σ0]; simp) h1
+          (fun hwo m hm ha => (htgt hwo m hm (by rw [← a1.anc]; exact ha)).appended a1)
+          (fun _ _ => (cx_sem2 (scope := scope) (σ0 := σ0) (wo := wo) (Q := fun _ _ => True) hc1 hpd.1
+            (fun _ => trivial)).2.2)
           (fun hQ => ?_)
         exact (cx_sem2 (scope := scope) (σ0 := σ0) (wo := wo) hc1 hpd.1
-          (fun hwo => hQ _ q1 (by simp) (hctl' _ (fun _ _ => rfl) hwo q1 (by simp)))).2
-    | [q1, q2], hd, hes, hctl', _, hcx, h1 =>
+          (fun hwo => hQ _ q1 (by simp) (hctl' _ (fun _ _ => rfl) hwo q1 (by simp)))).2.1
+    | [q1, q2], hd, hes, hctl', htgt, _, hcx, h1 =>
       unfold cxAll at hcx
       obtain ⟨u2, s2, hc1, hc2⟩ := run_bind_ok.mp hcx
       unfold cxAll at hc2
@@ -380,23 +384,28 @@ theorem orGates_sem2 {es : List Nat} {dest : Option Nat} {e : BExp} {d a : Nat} 
         have e2 : ∀ q, q ≠ d → cur σ0 s1 q = cur σ0 s q := fun q hq => by
           rw [a2.cur_ne rfl σ0 q hq, e1 q hq]
         refine orFin hp3 (a3.anc.trans (a2.anc.trans a1.anc)) (a3.qmap.trans (a2.qmap.trans a1.qmap))
-          (by rw [a3.nq, a2.nq, a1.nq]; exact hdlt) ?_ h2 (fun hQ => ?_)
+          (by rw [a3.nq, a2.nq, a1.nq]; exact hdlt) ?_ h2
+          (fun hwo m hm ha => (((htgt hwo m hm (by
+            rw [← a1.anc, ← a2.anc, ← a3.anc]; exact ha)).appended a1).appended a2).appended a3)
+          (fun _ _ => (mcx_sem2 (scope := scope) (σ0 := σ0) (wo := wo) (Q := fun _ _ => True) hm hpd3.1
+            (fun _ _ _ => trivial)).2.2)
+          (fun hQ => ?_)
         · rw [a3.cur_eq rfl σ0, a2.cur_eq rfl σ0, a1.cur_eq rfl σ0]
           simp only [List.all_cons, List.all_nil, List.any_cons, List.any_nil]
           rw [a2.cur_ne rfl σ0 q1 hq1, a2.cur_ne rfl σ0 q2 hq2, a1.cur_ne rfl σ0 q1 hq1, a1.cur_ne rfl σ0 q2 hq2]
           cases cur σ0 s d <;> cases cur σ0 s q1 <;> cases cur σ0 s q2 <;> rfl
         · have sg1 := (cx_sem2 (scope := scope) (σ0 := σ0) (wo := wo) (Q := CtlQ scope ρ s') hc1 hpd.1
-            (fun hwo => hQ _ q1 (by simp) (hctl' _ (fun _ _ => rfl) hwo q1 (by simp)))).2
+            (fun hwo => hQ _ q1 (by simp) (hctl' _ (fun _ _ => rfl) hwo q1 (by simp)))).2.1
           have sg2 := (cx_sem2 (scope := scope) (σ0 := σ0) (wo := wo) (Q := CtlQ scope ρ s') hc3 hpd2.1
-            (fun hwo => hQ _ q2 (by simp) (hctl' _ (fun c hc => e1 c (hne c hc)) hwo q2 (by simp)))).2
+            (fun hwo => hQ _ q2 (by simp) (hctl' _ (fun c hc => e1 c (hne c hc)) hwo q2 (by simp)))).2.1
           have sg3 := (mcx_sem2 (scope := scope) (σ0 := σ0) (wo := wo) (Q := CtlQ scope ρ s') hm hpd3.1
-            (fun hwo c hc => hQ _ c hc (hctl' _ (fun c hc => e2 c (hne c hc)) hwo c hc))).2
+            (fun hwo c hc => hQ _ c hc (hctl' _ (fun c hc => e2 c (hne c hc)) hwo c hc))).2.1
           refine ((sg1.trans' sg2).trans' sg3).mono ?_ ?_ ?_
           · rintro q _ ((h' | h') | h') <;> exact h'
           · rintro c ((h' | h') | h') <;> exact h'
           · rintro m ((h' | h') | h') <;> exact h'
       · simp at hc
-    | _ :: _ :: _ :: _, _, _, _, hle, _, _ => simp at hle
+    | _ :: _ :: _ :: _, _, _, _, _, hle, _, _ => simp at hle
   · obtain ⟨u1, s1, hx1, h1⟩ := run_bind_ok.mp h
     obtain ⟨u2, s2, hm, h2⟩ := run_bind_ok.mp h1
     obtain ⟨u3, s3, hx2, h3⟩ := run_bind_ok.mp h2
@@ -441,21 +450,25 @@ theorem orGates_sem2 {es : List Nat} {dest : Option Nat} {e : BExp} {d a : Nat} 
         rcases hq with hq | ⟨n, hk, hq⟩
         · exact hpd.1 hq
         · exact hpd.2 n hk hq))
-    refine orFin hp4 hanc4 hqm4 (by rw [a4.nq, hn3]; exact hdlt) hvd h4 (fun hQ => ?_)
+    refine orFin hp4 hanc4 hqm4 (by rw [a4.nq, hn3]; exact hdlt) hvd h4
+      (fun hwo m hm ha => (((((htgt hwo m hm (by rw [← hanc4]; exact ha)).of_sem sx1).appended am).of_sem sx3).appended a4))
+      (fun _ _ => (xGate_sem2 (scope := scope) (σ0 := σ0) (wo := wo) (Q := fun _ _ => True) hx3
+        (fun h' => hpd.1 ((hav3 d).mp h'))).2.2)
+      (fun hQ => ?_)
     have sgm := (mcx_sem2 (scope := scope) (σ0 := σ0) (wo := wo) (Q := CtlQ scope ρ s') hm
       (fun h' => hpd.1 ((hav1 d).mp h')) (fun hwo c hc => by
         rcases hctl hwo c hc with h' | ⟨h', _⟩
         · exact hQ _ c hc (Or.inl h')
-        · exact absurd (h' hnd) hnle)).2
+        · exact absurd (h' hnd) hnle)).2.1
     have sx4 := (xGate_sem2 (scope := scope) (σ0 := σ0) (wo := wo) (Q := CtlQ scope ρ s') hx3
-      (fun h' => hpd.1 ((hav3 d).mp h'))).2
+      (fun h' => hpd.1 ((hav3 d).mp h'))).2.1
     refine ((((sx1.trans' sgm).trans' sx3).trans' sx4).reframe (W' := (· = d)) (fun q hq _ => hfr q hq)).mono
       (fun _ _ h' => h') ?_ ?_
     · rintro c (((h' | h') | h') | h') <;> exact h'
     · rintro m (((h' | h') | h') | h') <;> exact h'
 
 theorem exprSem2_or {args : List BExp} (ih : ArgsSem2 scope ρ σ0 wo args)
-    (hor : wo = false → args.length ≤ 2 ∨ ∀ a ∈ args, isLeaf a = false) :
+    (hor : wo = false → args.length ≤ 2 ∨ ∀ a ∈ args, isLeaf a = false) (hne : wo = false → args ≠ []) :
     ExprSem2 scope ρ σ0 wo (.or args) := by
   intro dest sym a s s' h hp hcache hd hsym _
   unfold compileExpr at h
@@ -478,15 +491,17 @@ theorem exprSem2_or {args : List BExp} (ih : ArgsSem2 scope ρ σ0 wo args)
         (∀ c ∈ es, ¬ Avail t c) →
         (wo = false → ∀ c ∈ es, c ∈ t.qc.anc ∨ ((es.Nodup → es.length ≤ 2) ∧
           ∃ n, Known scope n ∧ dictGet? t.qc.qmap n = some c ∧ cur σ0 t c = kval ρ n)) →
+        (wo = false → ∀ m ∈ es, m ∈ t.qc.anc → Tgt t m) →
         a = d ∧ Pre2 scope ρ σ0 s' ∧
           Sem2 scope σ0 wo (CtlQ scope ρ s') (· = d) (· = BExp.or args) (fun m => m ∈ es ∧ m ∈ t.qc.anc) t s' ∧
-          cur σ0 s' d = Bool.xor (cur σ0 t d) (es.any (cur σ0 t))) →
+          cur σ0 s' d = Bool.xor (cur σ0 t d) (es.any (cur σ0 t)) ∧ (wo = false → es ≠ [] → Tgt s' d)) →
       Pre2 scope ρ σ0 s' ∧
       Sem2 scope σ0 wo (CtlQ scope ρ s') (fun q => dest = some q) (· ∈ compKeys (BExp.or args))
         (fun m => Avail s1 m ∧ ¬ Avail s' m ∧ (dest = none → m ≠ a)) s1 s' ∧
-      (dest = none → Res scope s1 s' a ∧ ¬ Avail s' a ∧ cur σ0 s' a = (BExp.or args).eval ρ ∧
+      (dest = none → Res scope wo s1 s' a ∧ ¬ Avail s' a ∧ cur σ0 s' a = (BExp.or args).eval ρ ∧
         (isLeaf (BExp.or args) = false → a ∈ s'.qc.anc)) ∧
-      (∀ d, dest = some d → a = d ∧ cur σ0 s' d = Bool.xor (cur σ0 s1 d) ((BExp.or args).eval ρ)) := by
+      (∀ d, dest = some d → a = d ∧ cur σ0 s' d = Bool.xor (cur σ0 s1 d) ((BExp.or args).eval ρ) ∧
+        (wo = false → Tgt s' d)) := by
     intro d s3 k es hes hdest h3 hk
     obtain ⟨hp3, semd, hcd, hdn, hpriv3, hdcase⟩ := dest_sem2 (wo := wo) (Q := CtlQ scope ρ s') hp2 hd hd2 hb hdest
     have hcdn : ¬ (erets.contains d = true) := by simpa using hdn
@@ -495,17 +510,26 @@ theorem exprSem2_or {args : List BExp} (ih : ArgsSem2 scope ρ σ0 wo args)
     have hdes : d ∉ es := fun h' => hdn (hmem d h')
     rcases run_ite_ok.mp h3 with ⟨hc, _⟩ | ⟨_, h3⟩
     · exact absurd hc hcdn
-    · obtain ⟨ead, hp', semo, hv⟩ := hk h3 hp3 hdes hpriv3
+    · obtain ⟨ead, hp', semo, hv, htd⟩ := hk h3 hp3 hdes hpriv3
         (fun c hc h' => (hb c (hmem c hc)).2 (semd.avail c h'))
         (fun hwo c hc => by
-          rcases (hb c (hmem c hc)).1 with ⟨n, hkn, hq⟩ | ⟨_, hanc⟩
+          rcases (hb c (hmem c hc)).1 with ⟨n, hkn, hq⟩ | ⟨_, hanc, _⟩
           · rcases hor hwo with hle | hall
             · refine Or.inr ⟨fun hnd => ?_, n, hkn, semd.qkeep n c hkn hq, by
                 rw [hcd]; exact (hp2.tbl n c hkn hq).2.2⟩
               exact Nat.le_trans (hnd.length_le_of_subset (fun x hx => hmem x hx)) (by rw [hlen]; exact hle)
             · exact Or.inl (semd.akeep c (hancs hall c (hmem c hc)))
           · exact Or.inl (semd.akeep c hanc))
+        (fun hwo m hm ha => ((hb m (hmem m hm)).1.next semd).tgt_of_anc hp3 ha hwo)
       subst ead
+      have tgd' : wo = false → Tgt s' a := fun hwo => htd hwo (by
+        have hne' := hne hwo
+        cases hea : erets with
+        | nil => rw [hea] at hlen; exact absurd (List.length_eq_zero_iff.mp hlen.symm) hne'
+        | cons x xs =>
+          intro hnil
+          have : x ∈ es := by rw [hes]; exact mem_sortDedup.mpr (by rw [hea]; exact List.mem_cons_self)
+          rw [hnil] at this; cases this)
       have tail := semd.trans' semo
       have tot := (sem1.monoQ (CtlQ.of_sem tail)).trans' tail
       have hval : cur σ0 s' a = Bool.xor (cur σ0 s2 a) (evalOr ρ args) := by
@@ -532,13 +556,13 @@ theorem exprSem2_or {args : List BExp} (ih : ArgsSem2 scope ρ σ0 wo args)
           · exact h'.elim
           · exact ⟨(hmk m h').1, (hmk m h').2.1, fun hn => by cases hn⟩
         · cases hd'
-          refine ⟨rfl, ?_⟩
+          refine ⟨rfl, ?_, tgd'⟩
           rw [hval, sem1.frame a (fun h' => h') (Or.inl (hd a rfl).1)]
           simp [BExp.eval]
       · subst hnone
         have hav1 : Avail s1 a := sem1.avail a hava
         have hanc' : a ∈ s'.qc.anc := semo.akeep a hanca
-        refine ⟨hp', tot.mono ?_ ?_ ?_, fun _ => ⟨Or.inr ⟨hav1, hanc'⟩, hnava', ?_, fun _ => hanc'⟩,
+        refine ⟨hp', tot.mono ?_ ?_ ?_, fun _ => ⟨Or.inr ⟨hav1, hanc', tgd'⟩, hnava', ?_, fun _ => hanc'⟩,
           fun d' hd' => by cases hd'⟩
         · rintro q hq' (h' | (h' | h'))
           · exact h'.elim
@@ -560,10 +584,10 @@ theorem exprSem2_or {args : List BExp} (ih : ArgsSem2 scope ρ σ0 wo args)
   | some d0 =>
     dsimp only at h2
     obtain ⟨d, s3, hp0, h4⟩ := run_bind_ok.mp h2
-    exact body _ rfl hp0 h4 (fun hk hpt hdes hpd hes hctl => orGates_sem2 hk hpt hdes hpd hes hctl)
+    exact body _ rfl hp0 h4 (fun hk hpt hdes hpd hes hctl htgt => orGates_sem2 hk hpt hdes hpd hes hctl htgt)
   | none =>
     dsimp only at h2
     obtain ⟨d, s3, hf, h4⟩ := run_bind_ok.mp h2
-    exact body _ rfl hf h4 (fun hk hpt hdes hpd hes hctl => orGates_sem2 hk hpt hdes hpd hes hctl)
+    exact body _ rfl hf h4 (fun hk hpt hdes hpd hes hctl htgt => orGates_sem2 hk hpt hdes hpd hes hctl htgt)
 
 end QV.Compiler
